@@ -20,7 +20,8 @@
 (***************************************************************************)
 EXTENDS TensorRepr, Json
 
-CONSTANTS NSet, ClsSet, MaxWrites, EmitOn
+CONSTANTS NSet, ClsSet, MaxWrites, EmitOn,
+          WritePats   \* code patterns for which tofile() is explored (all of them in the thorough tier)
 
 VARIABLES t, rep, w, dk, dst
 vars == <<t, rep, w, dk, dst>>
@@ -114,7 +115,7 @@ NextWrite ==
 
 \* (guards first: TLC then does not enumerate the quantified sets in states where the action is disabled)
 ConstructAny  == rep = NoRep /\ \E r \in RepsOf(t.cls) : Construct(r)
-FirstWriteAny == rep # NoRep /\ w = 0 /\ \E k \in DestKinds : FirstWrite(k)
+FirstWriteAny == rep # NoRep /\ w = 0 /\ (t.n = 0 \/ t.pat \in WritePats) /\ \E k \in DestKinds : FirstWrite(k)
 
 Next == ConstructAny \/ FirstWriteAny \/ NextWrite
 
